@@ -330,6 +330,15 @@ def run_shard(cfg):
     return acc
 
 
+def shrink_candidates(case):
+    """molecule-level cases: smaller molecules (the printer's output is re-derived from the reduced AST)"""
+    if case.get("level") != "molecule" or "ast" not in case:
+        return
+    from ..shrink import mol_candidates
+    for ast, text in mol_candidates(case["ast"], need_well_posed=False):
+        yield {**case, "ast": ast, "text": text}
+
+
 def replay(case, rec):
     import gbigsmiles as g
 
